@@ -288,6 +288,20 @@ impl Puppet {
         if RECORD_ENV.load(std::sync::atomic::Ordering::Relaxed) {
             REPLY_ERRS.with(|t| t.borrow_mut().push(format!("{:?} {:?}", kind, env)));
         }
+        // keys-only and values-only iteration (own trait methods a storage may override) are the two
+        // halves of the full iteration, with and without bounds
+        {
+            let n = own_store.iter().filter(|(k, _)| !k.starts_with(b"\xff<own")).count();
+            let keys: Vec<Vec<u8>> = deps.storage.range_keys(None, None, Order::Ascending).collect();
+            let vals: Vec<Vec<u8>> = deps.storage.range_values(None, None, Order::Ascending).collect();
+            let mut vals_desc: Vec<Vec<u8>> = deps.storage.range_values(None, Some(b"\xff\xff\xff"), Order::Descending).collect();
+            vals_desc.reverse();
+            let full = &own_store[..n];
+            let want_below: Vec<Vec<u8>> = full.iter().filter(|(k, _)| k.as_slice() < b"\xff\xff\xff".as_slice()).map(|(_, v)| v.clone()).collect();
+            if keys.len() != n || vals.len() != n || keys.iter().zip(full.iter()).any(|(k, f)| *k != f.0) || vals.iter().zip(full.iter()).any(|(v, f)| *v != f.1) || vals_desc != want_below {
+                own_store.push((b"\xff<own keys-only / values-only iteration disagrees with own full iteration>".to_vec(), format!("keys {} values {} full {}", keys.len(), vals.len(), n).into_bytes()));
+            }
+        }
         let bundle = make_bundle(&deps.as_ref(), &env, &watch);
         let rec = TraceRec {
             kind,
